@@ -5,11 +5,15 @@ package main
 import (
 	"bytes"
 	"crypto/ecdsa"
+	"crypto/dsa"
 	"crypto/ed25519"
 	"crypto/elliptic"
+	"crypto/rsa"
+	crand "crypto/rand"
 	"crypto/sha256"
 	"crypto/sha512"
 	"crypto/x509"
+	"encoding/base64"
 	"encoding/binary"
 	"encoding/pem"
 	"errors"
@@ -17,6 +21,8 @@ import (
 	"io"
 	"log"
 	"net"
+	"os"
+	"path/filepath"
 	"strconv"
 	"strings"
 	"sync"
@@ -177,7 +183,9 @@ func buildUniverse() {
 	universe = append(universe, ident{priv: edA, cert: mkCert(edA, 7), keyNo: 0}, ident{priv: rk, cert: mkCert(rk, 8), keyNo: 3})
 	// every key type the client encoder and insertIdentity have an arm for
 	universe = append(universe, ident{priv: ec384, keyNo: 6}, ident{priv: ec521, keyNo: 7}, ident{priv: dk, keyNo: 8},
-		ident{priv: ec, cert: mkCert(ec, 9), keyNo: 2}, ident{priv: dk, cert: mkCert(dk, 10), keyNo: 8})
+		ident{priv: ec, cert: mkCert(ec, 9), keyNo: 2}, ident{priv: dk, cert: mkCert(dk, 10), keyNo: 8},
+		ident{priv: ec384, cert: mkCert(ec384, 11), keyNo: 6}, ident{priv: ec521, cert: mkCert(ec521, 12), keyNo: 7},
+		ident{priv: &edB, cert: mkCert(edB, 13), keyNo: 1})
 	for i := range universe {
 		u := &universe[i]
 		s, err := ssh.NewSignerFromKey(u.priv)
@@ -224,7 +232,7 @@ func genComment(r *hx.Rand) []byte {
 }
 
 func pickSel(r *hx.Rand) []int {
-	all := []int{0, 1, 2, 3, 4, 5, 6, 7, 8, 9, 10}
+	all := []int{0, 1, 2, 3, 4, 5, 6, 7, 8, 9, 10, 11, 12, 13}
 	hx.Shuffle(r, all)
 	n := r.Range(2, 5)
 	sel := all[:n]
@@ -242,8 +250,32 @@ func pickSel(r *hx.Rand) []int {
 	return sel
 }
 
+var curMode = "direct"
+
+func shortKind(u ident) string {
+	k := map[string]string{"ssh-ed25519": "ed", "ecdsa-sha2-nistp256": "ec256", "ecdsa-sha2-nistp384": "ec384", "ecdsa-sha2-nistp521": "ec521", "ssh-rsa": "rsa", "ssh-dss": "dsa"}
+	t := u.pub.Type()
+	if u.cert != nil {
+		return k[u.cert.Key.Type()] + "cert"
+	}
+	return k[t]
+}
+
+func shortAlgo(u ident) string {
+	if u.cert != nil {
+		return u.cert.Key.Type()
+	}
+	return u.pub.Type()
+}
+
 func genSeqOps(r *hx.Rand, g *hx.Gen, sel []int, n int, timed bool) []string {
 	var ops []string
+	wire := curMode != "direct"
+	srv := func(op byte) {
+		if wire {
+			hitT("server-opcode", opcodeArm(op))
+		}
+	}
 	sleeps := 0
 	// a rough picture of the agent state, only used to aim the ops (present keys, lock password)
 	present := map[int]bool{}
@@ -262,6 +294,36 @@ func genSeqOps(r *hx.Rand, g *hx.Gen, sel []int, n int, timed bool) []string {
 		return k()
 	}
 	for len(ops) < n {
+		if r.Chance(1, 10) { // the remaining entry points: *Key methods, Signers()+SignWithAlgorithm, unknown key type
+			switch r.Intn(5) {
+			case 0, 1:
+				ops = append(ops, "V")
+				g.Stat("op.key-methods")
+			case 2, 3:
+				gi, al := kp(), r.PickStr("", "", "rsa-sha2-256", "rsa-sha2-512", "ssh-rsa", "ssh-ed25519", "ssh-dss", "ecdsa-sha2-nistp256", "bogus")
+				ops = append(ops, fmt.Sprintf("G.%d.%s", gi, hx.Hex([]byte(al))))
+				g.Stat("op.signer-sign")
+				arm := "unsupported"
+				switch {
+				case al == "":
+					arm = "default"
+				case al == "rsa-sha2-256" || al == "rsa-sha2-512":
+					arm = al
+				case al == shortAlgo(uni()[sel[gi]]):
+					arm = "own"
+				}
+				hitT("signer-algorithm", arm)
+				g.Stat("pair.signer+" + shortKind(uni()[sel[gi]]))
+				if locked {
+					g.Stat("pair.locked+signers")
+				}
+			default:
+				ops = append(ops, "au")
+				g.Stat("op.add-unsupported-type")
+				hitT("client-private-key", "unsupported")
+			}
+			continue
+		}
 		x := r.Intn(100)
 		if timed && sleeps < 4 && r.Chance(1, 6) {
 			x = 99
@@ -289,6 +351,36 @@ func genSeqOps(r *hx.Rand, g *hx.Gen, sel []int, n int, timed bool) []string {
 				next = r.Range(1, 2)
 			}
 			i := k()
+			u := uni()[sel[i]]
+			hitT("identity-key-type", u.pub.Type())
+			hitT("client-private-key", privKind(u))
+			g.Stat("pair." + curMode + "+" + shortKind(u))
+			if life > 0 {
+				g.Stat("pair.lifetime+" + shortKind(u))
+				hitT("constraint-id", "1")
+			}
+			if conf == 1 {
+				hitT("constraint-id", "2")
+				g.Stat("pair.confirm+" + curMode)
+			}
+			if next > 0 {
+				hitT("constraint-id", "255")
+				g.Stat("pair.constraint-ext+" + curMode)
+			}
+			if present[i] {
+				g.Stat("pair.replace+" + shortKind(u))
+				if life > 0 {
+					g.Stat("pair.replace+lifetime")
+				}
+			}
+			if locked {
+				g.Stat("pair.locked+add")
+			}
+			if life > 0 || conf == 1 || next > 0 {
+				srv(25)
+			} else {
+				srv(17)
+			}
 			if !locked && conf == 0 && next == 0 {
 				present[i] = true
 			}
@@ -297,9 +389,27 @@ func genSeqOps(r *hx.Rand, g *hx.Gen, sel []int, n int, timed bool) []string {
 		case x < 45:
 			ops = append(ops, "L")
 			g.Stat("op.list")
+			srv(11)
+			if locked {
+				g.Stat("pair.locked+list")
+			}
 		case x < 62:
-			ops = append(ops, fmt.Sprintf("s.%d.%d.%s", kp(), r.PickInt(0, 0, 0, 0, 2, 2, 4, 4, 1, 3, 6, 8), hx.Hex(r.Bytes(r.Intn(12)))))
+			si, fl := kp(), r.PickInt(0, 0, 0, 0, 2, 2, 4, 4, 1, 3, 6, 8)
+			ops = append(ops, fmt.Sprintf("s.%d.%d.%s", si, fl, hx.Hex(r.Bytes(r.Intn(12)))))
 			g.Stat("op.sign")
+			srv(13)
+			fa := "other"
+			if fl == 0 || fl == 2 || fl == 4 {
+				fa = strconv.Itoa(fl)
+			}
+			hitT("sign-flags", fa)
+			g.Stat("pair." + shortKind(uni()[sel[si]]) + "+flags" + fa)
+			if locked {
+				g.Stat("pair.locked+sign")
+			}
+			if !present[si] {
+				g.Stat("pair.absent+sign")
+			}
 		case x < 72:
 			i := kp()
 			if !locked {
@@ -307,6 +417,10 @@ func genSeqOps(r *hx.Rand, g *hx.Gen, sel []int, n int, timed bool) []string {
 			}
 			ops = append(ops, fmt.Sprintf("r.%d", i))
 			g.Stat("op.remove")
+			srv(18)
+			if locked {
+				g.Stat("pair.locked+remove")
+			}
 		case x < 76:
 			pw := hx.Pick(r, pwPool)
 			if !locked {
@@ -314,6 +428,10 @@ func genSeqOps(r *hx.Rand, g *hx.Gen, sel []int, n int, timed bool) []string {
 			}
 			ops = append(ops, "l."+hx.Hex([]byte(pw)))
 			g.Stat("op.lock")
+			srv(22)
+			if pw == "" {
+				g.Stat("pair.lock+empty-passphrase")
+			}
 		case x < 87:
 			pw := hx.Pick(r, pwPool)
 			if locked && r.Chance(3, 4) {
@@ -324,18 +442,24 @@ func genSeqOps(r *hx.Rand, g *hx.Gen, sel []int, n int, timed bool) []string {
 			}
 			ops = append(ops, "u."+hx.Hex([]byte(pw)))
 			g.Stat("op.unlock")
+			srv(23)
 		case x < 89:
 			if !locked {
 				present = map[int]bool{}
 			}
 			ops = append(ops, "R")
 			g.Stat("op.removeall")
+			srv(19)
+			if locked {
+				g.Stat("pair.locked+removeall")
+			}
 		case x < 93:
 			ops = append(ops, "S")
 			g.Stat("op.signers")
 		case x < 95:
 			ops = append(ops, fmt.Sprintf("x.%s.%s", hx.Hex([]byte(r.PickStr("query", "session-bind@openssh.com", ""))), hx.Hex(r.Bytes(r.Intn(6)))))
 			g.Stat("op.extension")
+			srv(27)
 		case x < 97: // private key i with the certificate of another key
 			i, j := k(), k()
 			if uni()[sel[j]].cert != nil && uni()[sel[j]].keyNo != uni()[sel[i]].keyNo && uni()[sel[i]].cert == nil {
@@ -370,6 +494,17 @@ func cat(bs ...[]byte) []byte {
 
 func genCons(r *hx.Rand, g *hx.Gen) []byte {
 	var c []byte
+	defer func() {
+		// the arm reached first (later ones only if the earlier items parse)
+		if len(c) > 0 {
+			switch c[0] {
+			case 1, 2, 3, 255:
+				hitT("constraint-id", strconv.Itoa(int(c[0])))
+			default:
+				hitT("constraint-id", "other")
+			}
+		}
+	}()
 	for n := r.Intn(4); n > 0; n-- {
 		switch r.Intn(12) {
 		case 0, 1, 2, 3:
@@ -487,6 +622,7 @@ func genFrames(r *hx.Rand, g *hx.Gen, sel []int, added []int) []string {
 		if len(b) == 0 {
 			fs = append(fs, "h.0")
 		} else {
+			hitT("server-opcode", opcodeArm(b[0]))
 			fs = append(fs, "b."+hx.Hex(b))
 		}
 	}
@@ -497,6 +633,10 @@ func genFrames(r *hx.Rand, g *hx.Gen, sel []int, added []int) []string {
 	case 1:
 		fs = append(fs, fmt.Sprintf("h.%d", r.PickInt(16<<20+1, 0x7fffffff, 0xffffffff)), "b.0b")
 		g.Stat("frame.too-large")
+	case 4: // an identity type insertIdentity has no arm for (last frame: reply not predicted)
+		fs = append(fs, "b."+hx.Hex(cat([]byte{17}, str([]byte(r.PickStr("ssh-unknown", "sk-ssh-ed25519@openssh.com", "ecdsa-sha2-nistp224"))), str(r.Bytes(8)), str(nil))))
+		hitT("identity-key-type", "unknown")
+		g.Stat("frame.add-unknown-type")
 	case 2, 3: // add request with damaged key material: any reply, no panic (must be the last frame)
 		u := uni()[sel[r.Intn(len(sel))]]
 		p := append([]byte(nil), u.prefix...)
@@ -517,13 +657,93 @@ func genFrames(r *hx.Rand, g *hx.Gen, sel []int, added []int) []string {
 	return fs
 }
 
+// table coverage: which arms of the input-indexed switches the generated inputs reach
+var tableHits = map[string]map[string]bool{}
+var tableTotal = map[string]int{
+	"server-opcode":        12, // 1 9 11 13 17 18 19 22 23 25 27 + unknown
+	"constraint-id":        5,  // 1 2 3 255 + unknown
+	"identity-key-type":    13, // rsa dss ecdsa256/384/521 ed25519 + their 6 cert forms + unknown
+	"sign-flags":           4,  // 0 2 4 + other
+	"client-private-key":   6,  // rsa dsa ecdsa ed25519 *ed25519 + unsupported
+	"client-reply":         8,  // 5 6 12 14 2 28 other empty
+	"signer-algorithm":     5,  // "" own rsa-sha2-256 rsa-sha2-512 unsupported
+}
+
+func hitT(table, arm string) {
+	if tableHits[table] == nil {
+		tableHits[table] = map[string]bool{}
+	}
+	tableHits[table][arm] = true
+}
+
+func opcodeArm(b byte) string {
+	switch b {
+	case 1, 9, 11, 13, 17, 18, 19, 22, 23, 25, 27:
+		return strconv.Itoa(int(b))
+	}
+	return "other"
+}
+
+func keyKind(u ident) string {
+	k := u.pub.Type()
+	return k
+}
+
+func privKind(u ident) string {
+	switch u.priv.(type) {
+	case *rsa.PrivateKey:
+		return "rsa"
+	case *dsa.PrivateKey:
+		return "dsa"
+	case *ecdsa.PrivateKey:
+		return "ecdsa"
+	case ed25519.PrivateKey:
+		return "ed25519"
+	case *ed25519.PrivateKey:
+		return "*ed25519"
+	}
+	return "?"
+}
+
 func gen(g *hx.Gen) {
 	r := g.R
+	defer func() {
+		for tb, tot := range tableTotal {
+			g.Stat(fmt.Sprintf("table.%s=%d/%d", tb, len(tableHits[tb]), tot))
+		}
+	}()
 	nSeq := g.Count(1200, 20000)
 	for i := 0; i < nSeq; i++ {
 		sel := pickSel(r)
-		ops := genSeqOps(r, g, sel, r.Range(1, 30), false)
 		mode := []string{"direct", "wire", "wirep"}[i%3]
+		curMode = mode
+		ops := genSeqOps(r, g, sel, r.Range(1, 30), false)
+		g.Stat("seq." + mode)
+		g.Emit("seq mode=%s K=%s ops=%s", mode, kTable(sel), strings.Join(ops, ";"))
+	}
+	// the same kind of sequences with the agent reached through an SSH connection
+	nFwd := g.Count(40, 600)
+	for i := 0; i < nFwd; i++ {
+		sel := pickSel(r)
+		mode := []string{"fwda", "fwdr"}[i%2]
+		curMode = mode
+		must := (i / 2) % len(uni()) // every identity goes through both forwarding forms
+		has := false
+		for _, x := range sel {
+			has = has || x == must
+		}
+		if !has {
+			sel[0] = must
+		}
+		ops := append([]string{fmt.Sprintf("a.%d.0.0.0.%s", func() int {
+			for j, x := range sel {
+				if x == must {
+					return j
+				}
+			}
+			return 0
+		}(), hx.Hex(genComment(r)))}, genSeqOps(r, g, sel, r.Range(3, 20), false)...)
+		g.Stat("pair." + mode + "+" + shortKind(uni()[must]))
 		g.Stat("seq." + mode)
 		g.Emit("seq mode=%s K=%s ops=%s", mode, kTable(sel), strings.Join(ops, ";"))
 	}
@@ -624,8 +844,56 @@ func gen(g *hx.Gen) {
 	for i := 0; i < nEnc; i++ {
 		sel := pickSel(r)
 		ops := genSeqOps(r, g, sel, 1, false)
+		for ops[0] == "V" || strings.HasPrefix(ops[0], "G.") { // composite calls: not a single request
+			ops = genSeqOps(r, g, sel, 1, false)
+		}
 		g.Stat("enc.client-request")
-		g.Emit("enc K=%s op=%s", kTable(sel), ops[0])
+		if i%2 == 0 {
+			g.Emit("enc K=%s op=%s", kTable(sel), ops[0])
+			continue
+		}
+		// the client's reading of replies a foreign / broken agent might send
+		var rep []byte
+		u := uni()[sel[r.Intn(len(sel))]]
+		key := cat(str(u.blob), str(genComment(r)))
+		switch k := r.Intn(12); k {
+		case 0:
+			rep = []byte{5}
+		case 1:
+			rep = []byte{6}
+		case 2:
+			rep = []byte{2, 0, 0, 0, 0}
+		case 3:
+			rep = []byte{}
+		case 4:
+			rep = []byte{byte(r.PickInt(0, 7, 13, 99, 255))}
+		case 5:
+			rep = []byte{28}
+		case 6:
+			rep = cat([]byte{12}, u32(1), key)
+		case 7:
+			rep = cat([]byte{12}, u32(uint32(r.PickInt(0, 2, 3, 0x7fffffff))), key, key)
+		case 8:
+			rep = cat([]byte{14}, str(cat(str([]byte("ssh-ed25519")), str(r.Bytes(8)))))
+		case 9:
+			rep = cat([]byte{14}, str(cat(str([]byte("x")), []byte{0, 0, 0, 9})), r.Bytes(r.Intn(2)))
+		case 10:
+			rep = cat([]byte{6}, r.Bytes(3))
+		default:
+			rep = mutate(r, cat([]byte{12}, u32(1), key))
+		}
+		hitT("client-reply", fmt.Sprint(func() int {
+			if len(rep) == 0 {
+				return -1
+			}
+			switch rep[0] {
+			case 5, 6, 12, 14, 2, 28:
+				return int(rep[0])
+			}
+			return 0
+		}()))
+		g.Stat("enc.client-reply-decoding")
+		g.Emit("enc K=%s op=%s rep=%s", kTable(sel), ops[0], hx.Hex(rep))
 	}
 }
 
@@ -723,9 +991,73 @@ func doOp(ag agent.ExtendedAgent, t []ident, op string) string {
 			o = append(o, idx(t, k.Blob)+"/"+hx.Hex([]byte(k.Comment)))
 		}
 		return "keys:" + hx.JoinStrs(o)
+	case "V": // List, then every *agent.Key method: String / Type / Marshal, Sign(k, …) + k.Verify
+		ks, err := ag.List()
+		if err != nil {
+			return "err"
+		}
+		var o []string
+		for _, k := range ks {
+			want := k.Format + " " + base64.StdEncoding.EncodeToString(k.Blob)
+			if k.Comment != "" {
+				want += " " + k.Comment
+			}
+			if k.String() != want || k.Type() != k.Format || !bytes.Equal(k.Marshal(), k.Blob) {
+				o = append(o, idx(t, k.Blob)+":bad-key-methods")
+				continue
+			}
+			data := []byte("verif-c43-" + k.Comment)
+			sig, err := ag.Sign(k, data)
+			if err != nil {
+				o = append(o, idx(t, k.Blob)+":err")
+			} else if k.Verify(data, sig) != nil {
+				o = append(o, idx(t, k.Blob)+":badsig")
+			} else {
+				o = append(o, idx(t, k.Blob)+":"+sig.Format)
+			}
+		}
+		return "kv:" + hx.JoinStrs(o)
+	case "G": // Signers(), then SignWithAlgorithm on the signer of identity i
+		u := t[atoi(f[1])]
+		algo := string(hx.UnHex(f[2]))
+		ss, err := ag.Signers()
+		if err != nil {
+			return "err"
+		}
+		for _, sg := range ss {
+			if bytes.Equal(sg.PublicKey().Marshal(), u.blob) {
+				data := []byte("verif-c43-signer")
+				var sig *ssh.Signature
+				if algo == "" {
+					sig, err = sg.Sign(crand.Reader, data)
+				} else {
+					sig, err = sg.(ssh.AlgorithmSigner).SignWithAlgorithm(crand.Reader, data, algo)
+				}
+				if err != nil {
+					return "err"
+				}
+				if u.pub.Verify(data, sig) != nil {
+					return "badsig"
+				}
+				return "sig:" + f[1] + ":" + sig.Format
+			}
+		}
+		return "none"
+	case "au": // a PrivateKey type neither the client nor ssh.NewSignerFromKey knows
+		return cls(ag.Add(agent.AddedKey{PrivateKey: struct{ X int }{7}, Comment: "x"}))
 	case "s":
 		u := t[atoi(f[1])]
 		data := hx.UnHex(f[3])
+		if f[2] == "0" && len(data)%2 == 0 { // the plain Agent.Sign entry point
+			sig, err := ag.Sign(u.pub, data)
+			if err != nil {
+				return "err"
+			}
+			if u.pub.Verify(data, sig) != nil {
+				return "badsig"
+			}
+			return "sig:" + f[1] + ":" + sig.Format
+		}
 		sig, err := ag.SignWithFlags(u.pub, data, agent.SignatureFlags(atoi(f[2])))
 		if err != nil {
 			return "err"
@@ -781,6 +1113,127 @@ func startServer(kr agent.Agent) (net.Conn, chan bool) {
 	return c1, panicked
 }
 
+// forwardedAgent builds an in-process SSH client/server pair over TCP loopback; the client side forwards
+// its agent (ForwardToAgent(keyring), or ForwardToRemote to a unix socket on which ServeAgent(keyring)
+// listens) after RequestAgentForwarding on a session; the server side opens the auth-agent channel and
+// returns it: an agent client on that channel talks to the keyring.
+func forwardedAgent(kr agent.Agent, remote bool) (io.ReadWriteCloser, func(), error) {
+	var closers []func()
+	cleanup := func() {
+		for i := len(closers) - 1; i >= 0; i-- {
+			closers[i]()
+		}
+	}
+	ln, err := net.Listen("tcp", "127.0.0.1:0")
+	if err != nil {
+		return nil, cleanup, err
+	}
+	closers = append(closers, func() { ln.Close() })
+	hostSigner, _ := ssh.NewSignerFromKey(ed25519.NewKeyFromSeed(seed("c43-hostkey")))
+	scfg := &ssh.ServerConfig{NoClientAuth: true}
+	scfg.AddHostKey(hostSigner)
+	type srvRes struct {
+		conn *ssh.ServerConn
+		err  error
+	}
+	srvCh := make(chan srvRes, 1)
+	fwdReq := make(chan bool, 4)
+	go func() {
+		c, err := ln.Accept()
+		if err != nil {
+			srvCh <- srvRes{nil, err}
+			return
+		}
+		sc, chans, reqs, err := ssh.NewServerConn(c, scfg)
+		if err != nil {
+			srvCh <- srvRes{nil, err}
+			return
+		}
+		go ssh.DiscardRequests(reqs)
+		go func() {
+			for nc := range chans { // sessions: accept, answer auth-agent-req
+				if nc.ChannelType() != "session" {
+					nc.Reject(ssh.UnknownChannelType, "no")
+					continue
+				}
+				ch, rq, err := nc.Accept()
+				if err != nil {
+					continue
+				}
+				go func() {
+					for r := range rq {
+						if r.Type == "auth-agent-req@openssh.com" {
+							r.Reply(true, nil)
+							fwdReq <- true
+						} else if r.WantReply {
+							r.Reply(false, nil)
+						}
+					}
+				}()
+				_ = ch
+			}
+		}()
+		srvCh <- srvRes{sc, nil}
+	}()
+	cc, err := net.Dial("tcp", ln.Addr().String())
+	if err != nil {
+		return nil, cleanup, err
+	}
+	closers = append(closers, func() { cc.Close() })
+	conn, chans, reqs, err := ssh.NewClientConn(cc, "x", &ssh.ClientConfig{User: "u", HostKeyCallback: ssh.InsecureIgnoreHostKey()})
+	if err != nil {
+		return nil, cleanup, err
+	}
+	client := ssh.NewClient(conn, chans, reqs)
+	closers = append(closers, func() { client.Close() })
+	if remote {
+		exe, _ := os.Executable()
+		dir, err := os.MkdirTemp(filepath.Join(filepath.Dir(filepath.Dir(exe))), "c43sock")
+		if err != nil {
+			return nil, cleanup, err
+		}
+		closers = append(closers, func() { os.RemoveAll(dir) })
+		sock := filepath.Join(dir, "a")
+		ul, err := net.Listen("unix", sock)
+		if err != nil {
+			return nil, cleanup, err
+		}
+		closers = append(closers, func() { ul.Close() })
+		go func() {
+			for {
+				c, err := ul.Accept()
+				if err != nil {
+					return
+				}
+				go func() { agent.ServeAgent(kr, c); c.Close() }()
+			}
+		}()
+		if err := agent.ForwardToRemote(client, sock); err != nil {
+			return nil, cleanup, err
+		}
+	} else if err := agent.ForwardToAgent(client, kr); err != nil {
+		return nil, cleanup, err
+	}
+	sess, err := client.NewSession()
+	if err != nil {
+		return nil, cleanup, err
+	}
+	if err := agent.RequestAgentForwarding(sess); err != nil {
+		return nil, cleanup, err
+	}
+	<-fwdReq
+	sr := <-srvCh
+	if sr.err != nil {
+		return nil, cleanup, sr.err
+	}
+	ch, rq, err := sr.conn.OpenChannel("auth-agent@openssh.com", nil)
+	if err != nil {
+		return nil, cleanup, err
+	}
+	go ssh.DiscardRequests(rq)
+	return ch, cleanup, nil
+}
+
 func execSeq(o hx.Op) string {
 	t := table(o)
 	kr := agent.NewKeyring()
@@ -799,6 +1252,13 @@ func execSeq(o hx.Op) string {
 		} else {
 			ag = agent.NewClient(c1)
 		}
+	case "fwda", "fwdr": // the agent reached through an SSH connection: ForwardToAgent / ForwardToRemote
+		ch, cleanup, err := forwardedAgent(kr, o.Str("mode") == "fwdr")
+		if err != nil {
+			panic(err)
+		}
+		defer cleanup()
+		ag = agent.NewClient(ch)
 	default:
 		return "bad-op"
 	}
@@ -895,20 +1355,38 @@ func execFrames(o hx.Op) string {
 func execEnc(o hx.Op) string {
 	t := table(o)
 	cc := &captureConn{reply: []byte{5}}
+	if o.Has("rep") {
+		cc.reply = o.Hex("rep")
+	}
 	op := o.Str("op")
-	doOp(agent.NewClient(cc), t, op)
-	if len(cc.reqs) == 0 {
-		return "none"
-	}
-	req := cc.reqs[0]
-	if op[0] == 'a' {
-		u := t[atoi(strings.Split(op, ".")[1])]
-		if !bytes.HasPrefix(req[1:], u.prefix) {
-			return "badprefix"
+	ag := agent.NewClient(cc)
+	var res string
+	if f := strings.Split(op, "."); f[0] == "s" && o.Has("rep") { // a foreign agent's signature cannot be verified here
+		sig, err := ag.SignWithFlags(t[atoi(f[1])].pub, hx.UnHex(f[3]), agent.SignatureFlags(atoi(f[2])))
+		if err != nil {
+			res = "err"
+		} else {
+			res = "sig:?:" + sig.Format
 		}
-		return fmt.Sprintf("%d:%s", req[0], hx.Hex(req[1+len(u.prefix):]))
+	} else {
+		res = hx.Catch(func() string { return doOp(ag, t, op) })
 	}
-	return hx.Hex(req)
+	reqS := "none"
+	if len(cc.reqs) > 0 {
+		req := cc.reqs[0]
+		reqS = hx.Hex(req)
+		if op[0] == 'a' && op != "au" {
+			u := t[atoi(strings.Split(op, ".")[1])]
+			if !bytes.HasPrefix(req[1:], u.prefix) {
+				return "badprefix"
+			}
+			reqS = fmt.Sprintf("%d:%s", req[0], hx.Hex(req[1+len(u.prefix):]))
+		}
+	}
+	if o.Has("rep") {
+		return reqS + " " + res
+	}
+	return reqS
 }
 
 func execConc(o hx.Op) string {
